@@ -180,7 +180,8 @@ impl Snap {
     }
     pub fn from_obs(o: &Obs, multi: bool) -> Snap {
         let names: Vec<String> = o.nodes.iter().map(|n| n.0.clone()).collect();
-        let pos = |s: &String| names.iter().position(|x| x == s).unwrap_or(usize::MAX);
+        let index: std::collections::BTreeMap<&str, usize> = names.iter().enumerate().rev().map(|(i, s)| (s.as_str(), i)).collect();
+        let pos = |s: &String| index.get(s.as_str()).copied().unwrap_or(usize::MAX);
         let edges = o.edges.iter().map(|e| (pos(&e.0), pos(&e.1), f64::from_bits(e.2))).filter(|e| e.0 != usize::MAX && e.1 != usize::MAX).collect();
         Snap { directed: o.directed, multi, names, edges }
     }
